@@ -270,12 +270,12 @@ class Image(Traversable):
             if marked[name]:
                 continue
 
-            match = self._STEREO_FILENAME.match(name)
+            match = self._match_stereo_name(name)
             if match:
-                alternate_ending = "R" if match.group(3) == "L" else "L"
+                alternate_ending = "R" if match[2] == "L" else "L"
                 alternate_name = "".join((
-                    match.group(1), 
-                    match.group(2), 
+                    match[0], 
+                    match[1], 
                     alternate_ending
                 ))
                 if alternate_name in sample_dict.keys():
@@ -286,7 +286,7 @@ class Image(Traversable):
                     else:
                         pairs = [alternate_sample, sample]
 
-                    new_name = match.group(1)
+                    new_name = match[0]
                     result_sample = combine_stereo(pairs[0], pairs[1], new_name)
                     marked[alternate_name] = True
                 
@@ -306,14 +306,24 @@ class Image(Traversable):
         return safe_name
 
 
-    _SAFE_ENDING = re.compile(r"(.+?)\s*\.?\s*$")
+    @staticmethod
+    def _strip_safe_ending(name: str) -> str:
+        # what r"(.+?)\s*\.?\s*$" captured, in linear time (the lazy group 
+        # followed by two \s* took cubic time on long runs of blanks)
+        stem = name.rstrip()
+        if stem.endswith("."):
+            stem = stem[:-1].rstrip()
+        stem = name[:max(len(stem), 1)]
+        if "\n" in stem:
+            return name
+        return stem
+
+
     _INVALID_FILE_NAME = re.compile(r"[^\w\-\.# ]+")
     def make_export_name(self, name, is_file=True) -> str:
         export_name = self.make_safe_name(name)
         export_name = self._INVALID_FILE_NAME.sub(" ", name).strip()
-        match = self._SAFE_ENDING.match(export_name)
-        if match:
-            export_name = match.group(1)
+        export_name = self._strip_safe_ending(export_name)
         if len(export_name) <= 0:
             export_name = "0"
         match = re.match(r"\w", export_name)
@@ -325,17 +335,32 @@ class Image(Traversable):
         return export_name
 
 
-    _STEREO_FILENAME = re.compile(r"(.*?)([\s-]+)(L|R)\s*$")
+    @staticmethod
+    def _match_stereo_name(name: str):
+        # the groups of r"(.*?)([\s-]+)(L|R)\s*$" as (stem, separator, side) 
+        # or None, in linear time (the regular expression was quadratic)
+        trimmed = name.rstrip()
+        if trimmed[-1:] not in ("L", "R"):
+            return None
+        body = trimmed[:-1]
+        start = len(body)
+        while start > 0 and (body[start - 1] == "-" or body[start - 1].isspace()):
+            start -= 1
+        if start == len(body) or "\n" in body[:start]:
+            return None
+        return body[:start], body[start:], trimmed[-1]
+
+
     def _add_count_to_name(self, name: str, count: int) -> str:
         count_str = "(" + str(count) + ")"
         delim = " "
         tokens = [name, count_str]
-        match = self._STEREO_FILENAME.match(name)
+        match = self._match_stereo_name(name)
         if match:
             tokens = [
-                match.group(1),
+                match[0],
                 count_str,
-                match.group(3)
+                match[2]
             ]
         new_name = delim.join(tokens)
         return new_name
